@@ -189,6 +189,43 @@ impl<Read: ReadHalf> ReadConnection<Read> {
     }
 }
 
+// Verification hooks (see /verif/DESIGN.md): constructor/observer/forwarder only.
+#[cfg(zlink_verif)]
+#[doc(hidden)]
+impl<Read: ReadHalf> ReadConnection<Read> {
+    /// Build a connection in an arbitrary state.
+    pub fn verif_from_parts(
+        socket: Read,
+        buffer: Vec<u8>,
+        read_pos: usize,
+        msg_pos: usize,
+        id: usize,
+    ) -> Self {
+        Self {
+            socket,
+            read_pos,
+            msg_pos,
+            buffer,
+            id,
+        }
+    }
+
+    /// Observe the state: (buffer, read_pos, msg_pos).
+    pub fn verif_parts(&self) -> (&[u8], usize, usize) {
+        (&self.buffer, self.read_pos, self.msg_pos)
+    }
+
+    /// Mutable access to the read half.
+    pub fn verif_read_half_mut(&mut self) -> &mut Read {
+        &mut self.socket
+    }
+
+    /// Forwarder to the private `read_from_socket`.
+    pub async fn verif_read_from_socket(&mut self) -> Result<()> {
+        self.read_from_socket().await
+    }
+}
+
 #[cfg(test)]
 mod tests {
     use super::*;
